@@ -13,6 +13,7 @@ CONSTANTS
   STAMPCHECK = FALSE
   ACSTAMPCHECK = TRUE
   TRAVOFF = 0
+  RETAINCHECK = TRUE
 INVARIANTS Linearizable NoDeadlock ResizeSafe QuiescentOK ReadersNeverBlock IterWeak GhostOK
 PROPERTY NeverShrinks
 VIEW view
